@@ -16,13 +16,20 @@ def gen_scene(rng, small=True, kinds=None, multi_dir=None, n_bands=None, att_zer
         att[int(rng.integers(0, B))] = 0.0          # lossless band next to lossy ones
     md = (rng.random() < 0.3) if multi_dir is None else multi_dir
     samp_par = None
+    samp_in = None
     tables = None
     if md:
         samp_par = (int(rng.choice([1, 2])), int(rng.choice([3, 4, 5])), float(rng.uniform(0.3, 3.0)),
                     float(rng.uniform(0, 1)))
         n = samp_par[0] * samp_par[1]
+        n_in = n
         if rng.random() < 0.5:
-            tables = [rng.uniform(0, 1 / np.pi, size=(n, n, B)) * (rng.random((n, n, B)) < 0.8)
+            # incoming directions on a DIFFERENT sampling (other count, other positions)
+            samp_in = (int(rng.choice([1, 2])), int(rng.choice([2, 3, 4])), float(rng.uniform(0.3, 3.0)),
+                       float(rng.uniform(0, 1)))
+            n_in = samp_in[0] * samp_in[1]
+        if rng.random() < 0.5 or n_in != n:
+            tables = [rng.uniform(0, 1 / np.pi, size=(n_in, n, B)) * (rng.random((n_in, n, B)) < 0.8)
                       for _ in range(6)]
             kind = 'arbitrary-tables'
     c = float(rng.uniform(330, 350))
@@ -33,8 +40,21 @@ def gen_scene(rng, small=True, kinds=None, multi_dir=None, n_bands=None, att_zer
     S = int(rng.choice([long_bins, long_bins, max(3, long_bins // 3)]))
     src = scenes.gen_point_inside(rng, sides)
     recs = np.array([scenes.gen_point_inside(rng, sides) for _ in range(int(rng.integers(1, 4)))])
+    # how the configuration is installed (one call per wall / wall 0's material on all walls first,
+    # then overrides) and whether the direction sets are given with non-unit radii (the radius of a
+    # direction is documented to be ignored)
+    install = 'default-first' if rng.random() < 0.3 else None
+    radii = bool(rng.random() < 0.5)
     return dict(sides=sides, patch=patch, B=B, absorption=a, kind=kind, att=att, samp_par=samp_par,
-                tables=tables, c=c, dt=dt, S=S, long_bins=long_bins, K=K, src=src, recs=recs)
+                tables=tables, c=c, dt=dt, S=S, long_bins=long_bins, K=K, src=src, recs=recs,
+                install=install, radii=radii, samp_in=samp_in)
+
+
+def sampling_in_of(sc):
+    """Incoming direction set (the outgoing one unless the scene has its own incoming sampling)."""
+    if sc.get('samp_in') is None:
+        return sampling_of(sc)
+    return sampling_of(dict(sc, samp_par=sc['samp_in'], samp_in=None))
 
 
 def sampling_of(sc):
@@ -47,6 +67,8 @@ def sampling_of(sc):
     # equidistant from all samples of one colatitude ring): deterministic per-sample jitter
     jit = 0.03 * np.sin(1.0 + 7.3 * np.arange(s.csize) + 3.1 * off)
     s.colatitude = np.clip(s.colatitude + jit, 0.02, np.pi / 2 - 0.02)
+    if sc.get('radii'):
+        s.radius = 0.4 + 1.9 * np.abs(np.sin(2.0 + 5.1 * np.arange(s.csize) + 1.7 * off))
     return s
 
 
@@ -62,7 +84,8 @@ def build(sc, att=True, absorption=None, n_bands=None, band=None, setter_order=N
         att_v = None if att_v is None else att_v[band:band + 1]
         B = 1
     r = scenes.build_fast(sc['sides'], sc['patch'], absorption=a, att=att_v, n_bands=B,
-                          sampling=sampling_of(sc), tables=tables, setter_order=setter_order)
+                          sampling=sampling_of(sc), sampling_in=sampling_in_of(sc), tables=tables, setter_order=setter_order,
+                          install=sc.get('install'))
     if band is not None:
         # same frequency value as in the multi-band run
         pass
@@ -191,6 +214,9 @@ def describe(sc, r=None):
     d['absorption'] = np.round(sc['absorption'], 3).tolist()
     d['att'] = np.round(sc['att'], 4).tolist()
     d['multi_dir'] = sc['samp_par']
+    d['install'] = sc.get('install')
+    d['incoming_sampling'] = sc.get('samp_in')
+    d['non_unit_direction_radii'] = bool(sc.get('radii'))
     d['src'] = np.round(sc['src'], 3).tolist()
     if r is not None:
         d['n_patches'] = int(r.n_patches)
